@@ -426,6 +426,54 @@ func init() {
 		"(*sync.RWMutex).Lock":    extMutexLock,
 		"(*sync.RWMutex).Unlock":  extMutexUnlock,
 		"(*sync.RWMutex).RLock":   extMutexRLock,
+		// sync.Map: modelled as one map guarded by its own lock (every method is atomic); the map is kept in the struct's
+		// `dirty` field so that it is part of the heap graph (write frame, lockset)
+		"(*sync.Map).Load": func(fr *frame, args []value) value {
+			yield()
+			v := syncMapOf(args[0]).lookup(args[1])
+			if v == nil {
+				return tuple{iface{}, false}
+			}
+			return tuple{v, true}
+		},
+		"(*sync.Map).Store": func(fr *frame, args []value) value {
+			yield()
+			syncMapOf(args[0]).insert(args[1], args[2])
+			return nil
+		},
+		"(*sync.Map).LoadOrStore": func(fr *frame, args []value) value {
+			yield()
+			m := syncMapOf(args[0])
+			if v := m.lookup(args[1]); v != nil {
+				return tuple{v, true}
+			}
+			m.insert(args[1], args[2])
+			return tuple{args[2], false}
+		},
+		"(*sync.Map).LoadAndDelete": func(fr *frame, args []value) value {
+			yield()
+			m := syncMapOf(args[0])
+			v := m.lookup(args[1])
+			if v == nil {
+				return tuple{iface{}, false}
+			}
+			m.delete(args[1])
+			return tuple{v, true}
+		},
+		"(*sync.Map).Delete": func(fr *frame, args []value) value {
+			yield()
+			syncMapOf(args[0]).delete(args[1])
+			return nil
+		},
+		"(*sync.Map).Range": func(fr *frame, args []value) value {
+			yield()
+			for _, e := range syncMapOf(args[0]).live() {
+				if !call(fr.i, fr, token.NoPos, args[1], []value{e.key, e.value}).(bool) {
+					break
+				}
+			}
+			return nil
+		},
 		"(*sync.RWMutex).RUnlock": extMutexRUnlock,
 		"(*sync.Once).Do": func(fr *frame, args []value) value {
 			// struct{done uint32/atomic; m Mutex}: use first field as flag
@@ -1132,3 +1180,18 @@ func extSetupOnce(fr *frame, args []value) value {
 }
 
 func ClearSetupCache() { setupCache = map[string]value{} }
+
+
+var emptyIfaceType = types.NewInterfaceType(nil, nil)
+
+// syncMapOf returns the model map of a sync.Map (args[0] is the *sync.Map), creating it on first use.
+func syncMapOf(p value) *hashmap {
+	st := (*p.(*value)).(structure)
+	if hm, ok := st[2].(*hashmap); ok && hm != nil {
+		return hm
+	}
+	hm := makeMap(emptyIfaceType, 0).(*hashmap)
+	logStore(&st[2])
+	st[2] = hm
+	return hm
+}
